@@ -185,6 +185,8 @@ def inv(env, s, T):
         shown = jnp.where(s.tetromino_index == p, P[p], shown)
     return {**padding_empty(env, s.grid_padded),
             "cells_nonnegative": s.grid_padded >= 0,
+            # colour ids: every placement uses max+1, so ids never exceed the number of pieces placed (rules out int32 wrap-around)
+            "cell_values_at_most_pieces_placed": s.grid_padded <= s.step_count,
             "no_full_row_left": jnp.stack([~_all(occ[i]) for i in range(R)]),
             "tetromino_index_in_range": (s.tetromino_index >= 0) & (s.tetromino_index < 7),
             "new_tetromino_is_the_indexed_piece": s.new_tetromino == shown,
@@ -258,7 +260,7 @@ def problems(env, cfg, tier):
     # function level: place_tetromino under the documented precondition (mask-respecting action)
     def place_req(g, idx, rot, x):
         occ = occupancy(env, g)
-        return {**padding_empty(env, g), "cells_nonnegative": g >= 0, "idx": (idx >= 0) & (idx < 7), "rot": (rot >= 0) & (rot < 4),
+        return {**padding_empty(env, g), "cells_are_colour_ids": (g >= 0) & (g < 2 ** 30), "idx": (idx >= 0) & (idx < 7), "rot": (rot >= 0) & (rot < 4),
                 "x": (x >= 0) & (x < C), "action_is_legal": legal_at(env, occ, idx, rot, x)}
 
     def place_ens(g, idx, rot, x):
